@@ -289,7 +289,7 @@ constexpr auto compute_fma(fbits_t<F> const (&tab)[N])
 constexpr auto CT_FMA32 = compute_fma<float>(T_FMA32);
 constexpr auto CT_FMA64 = compute_fma<double>(T_FMA64);
 
-// fmod / remainder over all pairs with a non-zero divisor (x / 0 is not a constant expression)
+// fmod / remainder over all pairs
 template <typename F, size_t N>
 struct FmodCT {
     fbits_t<F> fmod_[N][N]{}, rem_[N][N]{};
@@ -302,7 +302,6 @@ constexpr auto compute_fmod(fbits_t<F> const (&tab)[N])
         for (size_t j = 0; j < N; ++j) {
             F const x = to_f<F>(tab[i]);
             F const y = to_f<F>(tab[j]);
-            if (y == F(0)) { continue; }
             r.fmod_[i][j] = to_b(etl::fmod(x, y));
             r.rem_[i][j]  = to_b(etl::remainder(x, y));
         }
@@ -530,7 +529,7 @@ constexpr auto algo2(char const* row) -> Algo2
     etl::reverse(r.begin(), r.end());
     for (int i = 0; i < a.n; ++i) { a.rev[i] = r[static_cast<size_t>(i)]; }
     auto o = v;
-    if (o.size() >= 1) { etl::rotate(o.begin(), o.begin() + 1, o.end()); }
+    etl::rotate(o.begin(), o.begin() + static_cast<etl::ptrdiff_t>(o.size() / 2), o.end());
     for (int i = 0; i < a.n; ++i) { a.rot[i] = o[static_cast<size_t>(i)]; }
     return a;
 }
@@ -925,7 +924,6 @@ bool vh::run_case(std::string const& op, Toks& in, Out& impl, Out& ref)
             if (!check_val(in, T_FMOD32[i], impl) || !check_val(in, T_FMOD32[j], impl)) { return true; }
             float const x = launder(to_f<float>(T_FMOD32[i]));
             float const y = launder(to_f<float>(T_FMOD32[j]));
-            if (y == 0.0F) { return false; }
             put_fbits(impl.tok("ok"), rem ? CT_FMOD32.rem_[i][j] : CT_FMOD32.fmod_[i][j], false);
             put_fbits(ref.tok("ok"), to_b(rem ? etl::remainder(x, y) : etl::fmod(x, y)), false);
             return true;
@@ -934,9 +932,32 @@ bool vh::run_case(std::string const& op, Toks& in, Out& impl, Out& ref)
             if (!check_val(in, T_FMOD64[i], impl) || !check_val(in, T_FMOD64[j], impl)) { return true; }
             double const x = launder(to_f<double>(T_FMOD64[i]));
             double const y = launder(to_f<double>(T_FMOD64[j]));
-            if (y == 0.0) { return false; }
             put_fbits(impl.tok("ok"), rem ? CT_FMOD64.rem_[i][j] : CT_FMOD64.fmod_[i][j], false);
             put_fbits(ref.tok("ok"), to_b(rem ? etl::remainder(x, y) : etl::fmod(x, y)), false);
+            return true;
+        }
+        return false;
+    }
+    // ---- fmod_rt / remainder_rt: the run-time path of etl::fmod / etl::remainder (impl) against libm (reference)
+    if (op == "fmod_rt" || op == "remainder_rt") {
+        bool const rem      = op == "remainder_rt";
+        std::string const t = in.str();
+        auto const i        = static_cast<size_t>(in.num());
+        auto const j        = static_cast<size_t>(in.num());
+        if (t == "f32" && i < len(T_FMOD32) && j < len(T_FMOD32)) {
+            if (!check_val(in, T_FMOD32[i], impl) || !check_val(in, T_FMOD32[j], impl)) { return true; }
+            float const x = launder(to_f<float>(T_FMOD32[i]));
+            float const y = launder(to_f<float>(T_FMOD32[j]));
+            put_fbits(impl.tok("ok"), to_b(rem ? etl::remainder(x, y) : etl::fmod(x, y)), false);
+            put_fbits(ref.tok("ok"), to_b(rem ? std::remainder(x, y) : std::fmod(x, y)), false);
+            return true;
+        }
+        if (t == "f64" && i < len(T_FMOD64) && j < len(T_FMOD64)) {
+            if (!check_val(in, T_FMOD64[i], impl) || !check_val(in, T_FMOD64[j], impl)) { return true; }
+            double const x = launder(to_f<double>(T_FMOD64[i]));
+            double const y = launder(to_f<double>(T_FMOD64[j]));
+            put_fbits(impl.tok("ok"), to_b(rem ? etl::remainder(x, y) : etl::fmod(x, y)), false);
+            put_fbits(ref.tok("ok"), to_b(rem ? std::remainder(x, y) : std::fmod(x, y)), false);
             return true;
         }
         return false;
